@@ -385,6 +385,9 @@ def corpus_pipeline(family, n, sd, tags="", l2=False):
             with open(path) as fh:
                 return json.load(fh)
         scs, ginfo = generate(family, n, sd, evs=l2, conc=4 if tags == "racebatch" else 0)
+        if l2:      # event traces are validated for the default option set only
+            for s in scs:
+                s["optsets"] = [""]
         mis, stats, jinfo = materialise_and_judge(scs, tags, l2=l2)
         by_id = {s["id"]: s for s in scs}
         for m in mis:
